@@ -82,10 +82,64 @@ def short(fn):
     return fn.split("::")[-1]
 
 
+def _verus(gen, build_dir, rlimit, extra, timeout):
+    cmd = [VERUS, gen, "--output-json", "--time", "--multiple-errors", "5"]
+    if rlimit:
+        cmd += ["--rlimit", str(rlimit)]
+    cmd += list(extra)
+    p = subprocess.run(cmd, capture_output=True, text=True, timeout=timeout, cwd=build_dir)
+    return cmd, p
+
+
+_missing = re.compile(r"no method named `(\w+)` found for (?:mutable reference|reference|struct|enum) `([^`]*)`")
+
+
+def auto_stubs(repo, A, stderr):
+    """The changed code calls a method that is not among the extracted items.  Find it in the repository
+    (same type, any file an item of this unit came from), and return text declaring it as an external
+    stub WITHOUT contract (its effect and result are unconstrained), plus a description."""
+    wanted = []
+    for mm in _missing.finditer(stderr):
+        name, ty = mm.group(1), mm.group(2)
+        ty = ty.replace("&mut", "").replace("&", "").strip()
+        ty = re.split(r"[<\s]", ty)[0].split("::")[-1]
+        if (name, ty) not in wanted:
+            wanted.append((name, ty))
+    out = []
+    files = []
+    for io in A.items:
+        if io.file not in files:
+            files.append(io.file)
+    for (name, ty) in wanted:
+        done = False
+        for f in files:
+            src, m = U.load(repo, f)
+            for it in rs.items(src, m, 0, len(src)):
+                if it.kind != "impl" or it.cfg_test or it.impl_type != ty or it.impl_trait is not None:
+                    continue
+                for sub in rs.items(src, m, it.body_open + 1, it.end - 1):
+                    if sub.kind == "fn" and sub.name == name and sub.body_open is not None:
+                        header = src[it.head:it.body_open].strip()
+                        sig = src[sub.head:sub.sig_end].strip()
+                        sig = re.sub(r"\bpub\b(\s*\([^)]*\))?\s*", "", sig)
+                        text = "\n%s {\n    #[verifier::external_body]\n    %s { unimplemented!() }\n}\n" % (header, sig)
+                        out.append((text, "%s::%s (%s:%d) is called by changed code but is not under contract: "
+                                    "modelled as an external function with unconstrained effect" %
+                                    (ty, name, f, U.line_of(src, sub.start))))
+                        done = True
+                        break
+                if done:
+                    break
+            if done:
+                break
+    return out
+
+
 def run_unit(repo, tmpl_path, build_dir, twins=False, rlimit=None, extra=(), timeout=600, suffix=""):
     R = UnitResult()
     name = os.path.splitext(os.path.basename(tmpl_path))[0]
     R.unit = name
+    R.auto_stubs = []
     t0 = time.time()
     try:
         A = U.assemble(repo, tmpl_path, twins=twins)
@@ -97,23 +151,35 @@ def run_unit(repo, tmpl_path, build_dir, twins=False, rlimit=None, extra=(), tim
     R.assembled = A
     os.makedirs(build_dir, exist_ok=True)
     gen = os.path.join(build_dir, name + suffix + ("_twins" if twins else "") + ".rs")
-    with open(gen, "w", encoding="utf-8") as f:
-        f.write(A.text)
-    with open(gen + ".map.json", "w") as f:
-        json.dump(A.linemap, f)
     R.gen_path = gen
-    cmd = [VERUS, gen, "--output-json", "--time", "--multiple-errors", "5"]
-    if rlimit:
-        cmd += ["--rlimit", str(rlimit)]
-    cmd += list(extra)
-    R.cmd = " ".join(cmd)
-    try:
-        p = subprocess.run(cmd, capture_output=True, text=True, timeout=timeout, cwd=build_dir)
-    except subprocess.TimeoutExpired:
-        R.status = "undecided"
-        R.reason = "verus timed out after %ds" % timeout
-        R.wall_s = time.time() - t0
-        return R
+    p = None
+    for attempt in range(3):
+        with open(gen, "w", encoding="utf-8") as f:
+            f.write(A.text)
+        with open(gen + ".map.json", "w") as f:
+            json.dump(A.linemap, f)
+        try:
+            cmd, p = _verus(gen, build_dir, rlimit, extra, timeout)
+        except subprocess.TimeoutExpired:
+            R.status = "undecided"
+            R.reason = "verus timed out after %ds" % timeout
+            R.wall_s = time.time() - t0
+            return R
+        R.cmd = " ".join(cmd)
+        stubs = auto_stubs(repo, A, p.stderr) if "no method named" in p.stderr else []
+        stubs = [s_ for s_ in stubs if s_[1] not in R.auto_stubs]
+        if not stubs:
+            break
+        # splice the stubs in front of the closing brace of the verus! block and retry
+        k = A.text.rfind("} // verus!")
+        if k < 0:
+            break
+        add = "".join(t for t, _ in stubs)
+        A.text = A.text[:k] + add + A.text[k:]
+        nl = add.count("\n")
+        line_k = A.text.count("\n", 0, k)
+        A.linemap = A.linemap[:line_k] + [("gen", "auto-stub", 0)] * nl + A.linemap[line_k:]
+        R.auto_stubs += [d for _, d in stubs]
     R.wall_s = time.time() - t0
     R.stderr = p.stderr
     try:
